@@ -37,6 +37,7 @@ PARAMS = {
 
 def cases(ctx):
     out = runbank.base_cases(ctx)
+    out.append(("1HPX-from-CYS67", C.join([ln for ln in C.chain_lines("1HPX", "A", 66, 33)] + [C.TER]), []))
     out.append(("1HPX -d", C.test_pdb_text("1HPX"), ["-d"]))
     out.append(("1FTJ -d", C.test_pdb_text("1FTJ-Chain-A"), ["-d"]))
     big = ["3SGB", "1HPX"] if not ctx.thorough() else ["3SGB", "1HPX", "1FTJ-Chain-A", "4DFR", "3SGB-subset"]
@@ -47,6 +48,21 @@ def cases(ctx):
             out.append((f"{n} [{tag}]", C.test_pdb_text(n), ["-p", pf], {"keeppen": keeppen}))
         out.append((f"nterm-asp [{tag}]", nterm, ["-p", pf], {"keeppen": keeppen}))
     out += runbank.kit_cases(ctx, every=3 if ctx.thorough() else 18)
+    # chains truncated so that they start at ASP / HIS / CYS: N+ and the side chain are covalently coupled, one of them is
+    # penalised and its determinants are removed from its hydrogen-bond partners
+    starts = []
+    for src in ("1HPX", "4DFR", "1FTJ-Chain-A", "3SGB"):
+        blocks = [b for b in C.residue_blocks(C.atom_lines(src)) if b[0] != "TER" and b[1][0].startswith("ATOM")]
+        chain0 = blocks[0][0][0]
+        blocks = [b for b in blocks if b[0][0] == chain0]
+        for k, b in enumerate(blocks):
+            if b[0][3] in ("ASP", "HIS", "CYS") and 0 < k < len(blocks) - 30:
+                starts.append((src, k, blocks))
+    import random as _r
+    _r.Random(ctx.seed).shuffle(starts)
+    for src, k, blocks in starts[: (40 if ctx.thorough() else 6)]:
+        lines = [ln for b in blocks[k:k + 60] for ln in b[1] if ln[16] in " A"]
+        out.append((f"{src}-from-{blocks[k][0][3]}{blocks[k][0][1].strip()}", C.join(lines + [C.TER]), []))
     for n in (["conf-alt-AB", "conf-model-missing-atoms"] if not ctx.thorough() else
               ["conf-alt-AB", "conf-alt-BC", "conf-alt-AB-mutant", "conf-model-missing-atoms", "conf-model-mutant"]):
         out.append((n, C.test_pdb_text(n), []))
